@@ -3,11 +3,14 @@
 
    Every statement is about [exec (init v0) ls = Some (s, tr)]: ls is ANY finite interleaving of
    external operations (the runner's RPC methods, one at a time) with internal task-thread steps that
-   the model accepts (every step enabled when taken; [join] is enabled only once the thread exited),
+   the model accepts (every step enabled when taken; [join] is enabled only once the thread exited;
+   the runner's constructor is part of the system: label [Ctor] is its completion, and no other external
+   operation is enabled before it has returned a runner or after it has raised),
    s the state reached and tr the event log (label, result).  V, the type of settings values, is
    abstract: values are only stored, moved and returned whole.  [exec] / [step] are the functions the
    correspondence check runs against the real QMI_TaskRunner under the deterministic scheduler. *)
-Require Import QV.C10.Model QV.C10.Proofs.
+Require Import QV.C10.Model QV.C10.Proofs QV.C10.ModelLoop QV.C10.ProofsLoop.
+From Coq Require Import ZArith.
 
 (* run() is invoked at most once; the number of invocations is the number of TBeginRun steps; at most
    one start() succeeds; and run() has been invoked only if a start() succeeded *)
@@ -49,14 +52,14 @@ Print Assumptions C10_second_start_refused.
    changes *)
 Theorem C10_join : forall (V : Type) (v0 : V) ls s tr,
   exec (init v0) ls = Some (s, tr) ->
-  (step s (Ext Join) <> None <-> In (Int TExit) ls) /\
+  (step s (Ext Join) <> None <-> In (Ext Ctor, ONone) tr /\ In (Int TExit) ls) /\
   forall s' o, step s (Ext Join) = Some (s', o) ->
     In (Int TExit) ls /\
     (finished ls \/ (run_count s = 0 /\ In (Ext Stop) ls /\ ~ In (Ext Start, ONone) tr)) /\
     (o = OTaskRunError <-> In (Int TFinishExc) ls) /\
     (o = ONone <-> ~ In (Int TFinishExc) ls) /\
     final_state (state s) /\
-    s' = mk (state s) (pc s) (run_count s) (stop_flag s) (slot s) (cur s) true.
+    s' = mk (state s) (pc s) (run_count s) (stop_flag s) (slot s) (cur s) true (ctor s).
 Proof. exact (@join_spec). Qed.
 Print Assumptions C10_join.
 
@@ -129,13 +132,158 @@ Theorem C10_release : forall (V : Type) (v0 : V) ls s tr,
 Proof. exact (@release_spec). Qed.
 Print Assumptions C10_release.
 
+(* ---- the constructor path ---------------------------------------------------------------------- *)
+
+(* the reachable combinations of (constructor phase, thread position, state, run() count) are exactly
+   the 14 listed in [all_shapes]: every reachable state has one of them, and each is reached *)
+Theorem C10_reachable_shapes : forall (V : Type) (v0 : V) ls s tr,
+  exec (init v0) ls = Some (s, tr) -> In (shape_of s) all_shapes.
+Proof. exact (@reachable_shapes). Qed.
+Print Assumptions C10_reachable_shapes.
+
+Theorem C10_shapes_all_reached : forall (V : Type) (v0 : V) sh, In sh all_shapes ->
+  exists s tr, exec (init v0) (witness sh) = Some (s, tr) /\ shape_of s = sh.
+Proof. exact (@shapes_all_reachable). Qed.
+Print Assumptions C10_shapes_all_reached.
+
+(* make_task completes at most once; it returns a proxy iff the task constructor succeeded and raises
+   QMI_TaskInitException iff the constructor raised (whatever it raised); in the failure case the thread
+   has exited (it is joined), run() was not invoked and NO label at all is enabled afterwards; in the
+   success case the task is READY_TO_RUN with its thread alive *)
+Theorem C10_ctor : forall (V : Type) (v0 : V) ls s tr,
+  exec (init v0) ls = Some (s, tr) ->
+  forall s' o, step s (Ext Ctor) = Some (s', o) ->
+    ~ In (Ext Ctor, ONone) tr /\ ~ In (Ext Ctor, OInitError) tr /\
+    (o = ONone \/ o = OInitError) /\
+    (o = ONone <-> In (Int TInitDone) ls) /\
+    (o = OInitError <-> In (Int TInitFail) ls) /\
+    (o = OInitError -> In (Int TExit) ls /\ run_count s' = 0 /\ forall l, step s' l = None) /\
+    (o = ONone -> state s' = READY_TO_RUN /\ run_count s' = 0 /\ thread_done s' = false).
+Proof. exact (@ctor_spec). Qed.
+Print Assumptions C10_ctor.
+
+(* after make_task raised, in every later reachable state: nothing is enabled (there is no later state),
+   the thread is gone, run() was never invoked *)
+Theorem C10_init_failure_nothing_left : forall (V : Type) (v0 : V) ls s tr,
+  exec (init v0) ls = Some (s, tr) -> In (Ext Ctor, OInitError) tr ->
+  (forall l, step s l = None) /\ run_count s = 0 /\ thread_done s = true /\
+  In (Int TInitFail) ls /\ In (Int TExit) ls /\ ~ In (Int TInitDone) ls /\ ~ In (Int TBeginRun) ls.
+Proof. exact (@init_failure_terminal). Qed.
+Print Assumptions C10_init_failure_nothing_left.
+
+(* once the task constructor has raised, run() is never invoked, no proxy is ever returned and no
+   operation other than the constructor's completion is enabled *)
+Theorem C10_init_failure_never_runs : forall (V : Type) (v0 : V) ls s tr,
+  exec (init v0) ls = Some (s, tr) -> In (Int TInitFail) ls ->
+  run_count s = 0 /\ state s = EXCEPTION_WHILE_INSTANTIATING_TASK /\
+  (forall e, e <> Ctor -> step s (Ext e) = None) /\ ~ In (Ext Ctor, ONone) tr.
+Proof. exact (@init_failure_never_runs). Qed.
+Print Assumptions C10_init_failure_never_runs.
+
+(* ---- release_rpc_object on a task that was not joined: stop(); join() ---------------------------- *)
+
+(* from EVERY reachable state in which a runner exists: stop() is accepted; a task that honours the stop
+   request (sees the flag at its next poll and ends through the stop exception; or was never started)
+   reaches thread exit in at most 4 steps; then join() is enabled, reports the task-run error iff run()
+   had already failed, and release has nothing left to do *)
+Theorem C10_release_unjoined : forall (V : Type) (v0 : V) ls s tr,
+  exec (init v0) ls = Some (s, tr) -> In (Ext Ctor, ONone) tr ->
+  exists s1 s2 tr2 s3 o,
+    step s (Ext Stop) = Some (s1, ONone) /\
+    exec s1 (map Int (drain s1)) = Some (s2, tr2) /\
+    (forall x, In (Int TPollStop, x) tr2 -> x = OBool true) /\
+    step s2 (Ext Join) = Some (s3, o) /\
+    (o = OTaskRunError <-> In (Int TFinishExc) ls) /\
+    step s3 (Ext Release) = Some (s3, ONone).
+Proof. exact (@release_unjoined). Qed.
+Print Assumptions C10_release_unjoined.
+
+(* no dead-lock after a stop(): while the thread has not exited, the task thread can take a step ... *)
+Theorem C10_progress_after_stop : forall (V : Type) (v0 : V) ls s tr,
+  exec (init v0) ls = Some (s, tr) ->
+  In (Ext Stop) ls -> thread_done s = false -> exists i, step s (Int i) <> None.
+Proof. exact (@progress_after_stop). Qed.
+Print Assumptions C10_progress_after_stop.
+
+(* ... and every task-thread step other than the body's own update / poll steps strictly decreases a
+   rank bounded by 5, which no external operation changes: the thread exits after at most 5 such steps,
+   so join() (hence release) can only be delayed by the body itself *)
+Theorem C10_rank : forall (V : Type) (s : st V) l s' o,
+  step s l = Some (s', o) ->
+  match l with
+  | Ext _ => pc s' = pc s
+  | Int i => ((i = TUpdate \/ i = TPollStop) /\ pc s' = pc s) \/ (rank (pc s') < rank (pc s))%nat
+  end.
+Proof. exact (@rank_step). Qed.
+Print Assumptions C10_rank.
+
+(* ---- QMI_LoopTask.run: the three missed-period policies (ModelLoop.v) ---------------------------- *)
+
+(* IMMEDIATE re-bases: next_time = now + period *)
+Theorem C10_loop_immediate : forall p now next, late IMMEDIATE p now next = ((now + p)%Z, false).
+Proof. exact late_immediate. Qed.
+Print Assumptions C10_loop_immediate.
+
+(* SKIP: with k = int((period - time_to_sleep) / period) = 1 + floor((now - next_time) / period), the new
+   next_time = next_time + k*period is the FIRST point of the old grid strictly after now (no off-by-one:
+   it is after now, one period earlier is not, and no smaller multiple is after now) *)
+Theorem C10_loop_skip : forall p now next, (0 < p)%Z -> (next <= now)%Z ->
+  let k := ((p - (next - now)) / p)%Z in
+  late SKIP p now next = ((next + p * k)%Z, false) /\
+  k = (1 + (now - next) / p)%Z /\ (1 <= k)%Z /\
+  (now < next + p * k)%Z /\ (next + p * k - p <= now)%Z /\
+  (forall j, (now < next + p * j)%Z -> (k <= j)%Z).
+Proof. exact late_skip. Qed.
+Print Assumptions C10_loop_skip.
+
+(* TERMINATE requests stop and leaves next_time alone; the first missed period is the last iteration,
+   and loop_finalize then runs (the final record) at the time the late iteration ended *)
+Theorem C10_loop_terminate : forall p ts d rest now next,
+  late TERMINATE p (now + d) next = (next, true) /\
+  (ext_stopped ts now = false -> (next - (now + d) <= 0)%Z ->
+   loop TERMINATE p ts (d :: rest) now next false =
+     ([(now, next)], mkfinal (now + d) next EndStopSeen)).
+Proof. exact loop_terminate. Qed.
+Print Assumptions C10_loop_terminate.
+
+(* an iteration that is on time (and not stopped) is followed by one that starts exactly at next_time,
+   with next_time advanced by one period: no drift *)
+Theorem C10_loop_on_time : forall pol p ts d rest now next,
+  ext_stopped ts now = false -> (0 < next - (now + d))%Z -> ext_stopped ts next = false ->
+  loop pol p ts (d :: rest) now next false =
+    let '(its, fin) := loop pol p ts rest next (next + p) false in ((now, next) :: its, fin).
+Proof. exact on_time_no_drift. Qed.
+Print Assumptions C10_loop_on_time.
+
+(* a late iteration: the policy's next_time is what the following iteration sees, at once *)
+Theorem C10_loop_late : forall pol p ts d rest now next,
+  ext_stopped ts now = false -> (next - (now + d) <= 0)%Z ->
+  loop pol p ts (d :: rest) now next false =
+    let '(next', stop) := late pol p (now + d) next in
+    let '(its, fin) := loop pol p ts rest (now + d) next' stop in ((now, next) :: its, fin).
+Proof. exact late_step. Qed.
+Print Assumptions C10_loop_late.
+
+(* for every policy, script, stop time: at the entry of every iteration next_time is strictly in the future *)
+Theorem C10_loop_next_in_future : forall pol p t0 ts durs, (0 < p)%Z ->
+  Forall (fun e => (fst e < snd e)%Z) (fst (loop_run pol p t0 ts durs)).
+Proof. exact next_in_future. Qed.
+Print Assumptions C10_loop_next_in_future.
+
+(* SKIP and TERMINATE never leave the grid t0 + n*period (IMMEDIATE does: it re-bases) *)
+Theorem C10_loop_grid : forall pol p t0 ts durs, (0 < p)%Z -> pol <> IMMEDIATE ->
+  Forall (fun e => ((snd e - t0) mod p = 0)%Z) (fst (loop_run pol p t0 ts durs)) /\
+  ((f_next (snd (loop_run pol p t0 ts durs)) - t0) mod p = 0)%Z.
+Proof. exact run_on_grid. Qed.
+Print Assumptions C10_loop_grid.
+
 (* Non-vacuity: concrete interleavings are accepted, with the expected results. *)
 Example C10_example_run_and_fail :
   option_map snd (exec (init 0)
-    [Int TInitDone; Ext (SetSettings 7); Ext (SetSettings 8); Ext Start; Ext IsRunning; Int TBeginRun;
+    [Int TInitDone; Ext Ctor; Ext (SetSettings 7); Ext (SetSettings 8); Ext Start; Ext IsRunning; Int TBeginRun;
      Int TUpdate; Ext Start; Ext Stop; Int TPollStop; Int TUpdate; Int TFinishExc; Ext IsRunning;
      Int TExit; Ext Join; Ext Release])
-  = Some [(Int TInitDone, ONone); (Ext (SetSettings 7), ONone); (Ext (SetSettings 8), ONone);
+  = Some [(Int TInitDone, ONone); (Ext Ctor, ONone); (Ext (SetSettings 7), ONone); (Ext (SetSettings 8), ONone);
           (Ext Start, ONone); (Ext IsRunning, OBool true); (Int TBeginRun, ONone);
           (Int TUpdate, OUpd true 8); (Ext Start, OUsageError); (Ext Stop, ONone);
           (Int TPollStop, OBool true); (Int TUpdate, OUpd false 8); (Int TFinishExc, ONone);
@@ -145,13 +293,36 @@ Proof. vm_compute. reflexivity. Qed.
 
 Example C10_example_stop_first :
   option_map snd (exec (init 0)
-    [Int TInitDone; Ext Stop; Ext Start; Int TExit; Ext Join; Ext Start; Ext IsRunning])
-  = Some [(Int TInitDone, ONone); (Ext Stop, ONone); (Ext Start, OUsageError); (Int TExit, ONone);
+    [Int TInitDone; Ext Ctor; Ext Stop; Ext Start; Int TExit; Ext Join; Ext Start; Ext IsRunning])
+  = Some [(Int TInitDone, ONone); (Ext Ctor, ONone); (Ext Stop, ONone); (Ext Start, OUsageError); (Int TExit, ONone);
           (Ext Join, ONone); (Ext Start, OUsageError); (Ext IsRunning, OBool false)].
 Proof. vm_compute. reflexivity. Qed.
 
 (* join() is a guarded step: not enabled while the thread is alive; no external op during init *)
 Example C10_example_join_blocks :
-  exec (init 0) [Int TInitDone; Ext Start; Int TBeginRun; Ext Join] = None /\
-  exec (init 0) [Ext Start] = None.
-Proof. vm_compute. split; reflexivity. Qed.
+  exec (init 0) [Int TInitDone; Ext Ctor; Ext Start; Int TBeginRun; Ext Join] = None /\
+  exec (init 0) [Ext Start] = None /\ exec (init 0) [Int TInitDone; Ext Start] = None.
+Proof. vm_compute. repeat split; reflexivity. Qed.
+
+(* the constructor raising: make_task raises, nothing is left *)
+Example C10_example_init_failure :
+  option_map snd (exec (init 0) [Int TInitFail; Int TExit; Ext Ctor])
+  = Some [(Int TInitFail, ONone); (Int TExit, ONone); (Ext Ctor, OInitError)] /\
+  exec (init 0) [Int TInitFail; Ext Ctor] = None /\
+  exec (init 0) [Int TInitFail; Int TExit; Ext Ctor; Ext Start] = None.
+Proof. vm_compute. repeat split; reflexivity. Qed.
+
+(* loop task, period 8, iterations of 2, 30, 3, 20, 1 ticks from t0 = 100 *)
+Example C10_example_loop_skip :
+  loop_run SKIP 8 100 None [2; 30; 3; 20; 1]%Z
+  = ([(100, 108); (108, 116); (138, 140); (141, 148); (161, 164); (164, 172)]%Z,
+     mkfinal 164 172 EndScript).
+Proof. vm_compute. reflexivity. Qed.
+Example C10_example_loop_immediate :
+  loop_run IMMEDIATE 8 100 (Some 143%Z) [2; 30; 3; 20; 1]%Z
+  = ([(100, 108); (108, 116); (138, 146)]%Z, mkfinal 143 146 EndSleepStopped).
+Proof. vm_compute. reflexivity. Qed.
+Example C10_example_loop_terminate :
+  loop_run TERMINATE 8 100 None [2; 30; 3; 20; 1]%Z
+  = ([(100, 108); (108, 116)]%Z, mkfinal 138 116 EndStopSeen).
+Proof. vm_compute. reflexivity. Qed.
